@@ -217,6 +217,10 @@ type Sim struct {
 	conc         bool // currently executing concurrently (burst); false in serial plans and after the burst
 	stop         bool
 	addrSets     [][]resolver.Address
+	nConnErr     int
+	addrMaster   []resolver.Address
+	addrWin      [][2]int
+	addrWant     []string
 	Opts         Options
 }
 
@@ -279,13 +283,113 @@ func (s *Sim) buildAPIConfig() *pb.ApiConfig {
 //go:norace
 func keyName(i int) string { return fmt.Sprintf("k%d", i) }
 
+// oddKeyName: affinity keys are opaque strings. Distinct for distinct i, and
+// built to collide under anything but exact string comparison: one is a prefix
+// of another, they differ in case / trailing space / NUL only, contain list and
+// path separators and non-ASCII characters, one is 300 bytes long.
+//
 //go:norace
-func keyNames(is []int) []string {
+func oddKeyName(i int) string {
+	switch i % 8 {
+	case 0:
+		return fmt.Sprintf("projects/p/instances/i/databases/d/sessions/%d", i)
+	case 1:
+		return fmt.Sprintf("projects/p/instances/i/databases/d/sessions/%d ", i-1) // key i-1 plus a space
+	case 2:
+		return fmt.Sprintf("K%d,k%d;%d", i, i, i)
+	case 3:
+		return fmt.Sprintf("k%d,K%d;%d", i-1, i-1, i-1) // key i-1 in the other case
+	case 4:
+		return fmt.Sprintf("k\x00%d", i)
+	case 5:
+		return fmt.Sprintf("schl\u00fcssel-\u4e16\u754c.%d", i)
+	case 6:
+		return fmt.Sprintf("%0300d", i)
+	}
+	return fmt.Sprintf("%0300d.", i-1) // key i-1 plus a dot
+}
+
+//go:norace
+func (s *Sim) keyNames(is []int) []string {
 	out := make([]string, len(is))
 	for i, x := range is {
-		out[i] = keyName(x)
+		if s.plan.OddKeys {
+			out[i] = oddKeyName(x)
+		} else {
+			out[i] = keyName(x)
+		}
 	}
 	return out
+}
+
+// connErrs: what gRPC puts into SubConnState.ConnectionError with a
+// TRANSIENT_FAILURE report (built at package initialisation: see streamsim's
+// creationErrTable for why nothing is allocated on a task).
+var connErrs = []error{
+	errors.New("connection error: desc = \"transport: Error while dialing: dial tcp: connection refused\""),
+	errors.New("connection error: desc = \"transport: Error while dialing: dial tcp: i/o timeout\""),
+	fmt.Errorf("connection error: %w", context.DeadlineExceeded),
+	errors.New("connection error: desc = \"transport: authentication handshake failed\""),
+}
+
+// connState: the state report as gRPC delivers it. No statement mentions the
+// connection error; it varies (absent, repeated, different from the last one).
+//
+//go:norace
+func (s *Sim) connState(id int, st connectivity.State) balancer.SubConnState {
+	scs := balancer.SubConnState{ConnectivityState: st}
+	if st == connectivity.TransientFailure {
+		s.nConnErr++
+		if s.nConnErr%4 != 0 {
+			scs.ConnectionError = connErrs[(s.nConnErr/2+id)%len(connErrs)]
+		}
+	}
+	return scs
+}
+
+// initAddrs: the lists the resolver delivers. 0-2 as ever; 3 three addresses; 4
+// twenty addresses; 5 the last nineteen of them; 6 one address that differs
+// from list 0 in its server name only. With plan.SharedAddrs lists 0-5 are
+// windows into one array the resolver owns and keeps (a shorter list has the
+// longer ones in its spare capacity: a library that appends to a list it was
+// given writes into the next one); otherwise every update passes a copy of its
+// own, exactly as long as the list.
+//
+//go:norace
+func (s *Sim) initAddrs() {
+	m := []resolver.Address{{Addr: "a:1"}, {Addr: "b:2"}, {Addr: "c:3"}}
+	for i := 3; i < 20; i++ {
+		m = append(m, resolver.Address{Addr: fmt.Sprintf("h%d:%d", i, i)})
+	}
+	s.addrMaster = make([]resolver.Address, len(m), len(m)+4)
+	for i := range m {
+		s.addrMaster[i] = m[i]
+	}
+	s.addrSets = [][]resolver.Address{m[0:1], m[0:2], m[2:3], m[0:3], m[0:20], m[1:20], {{Addr: "a:1", ServerName: "other.example"}}}
+	s.addrWin = [][2]int{{0, 1}, {0, 2}, {2, 3}, {0, 3}, {0, 20}, {1, 20}}
+	for _, a := range s.addrSets {
+		s.addrWant = append(s.addrWant, addrsString(a))
+	}
+}
+
+// resolved returns the list to hand to the balancer and what it says.
+//
+//go:norace
+func (s *Sim) resolved(a int) ([]resolver.Address, string) {
+	i := a % len(s.addrSets)
+	if i >= 3 {
+		s.res.Count(fmt.Sprintf("fault:resolver_list_kind_%d", i), 1)
+	}
+	if s.plan.SharedAddrs && i < len(s.addrWin) {
+		s.res.Count("fault:resolver_lists_share_one_array", 1)
+		w := s.addrWin[i]
+		return s.addrMaster[w[0]:w[1]], s.addrWant[i]
+	}
+	out := make([]resolver.Address, len(s.addrSets[i]))
+	for j := range out {
+		out[j] = s.addrSets[i][j]
+	}
+	return out, s.addrWant[i]
 }
 
 // Run executes the plan under the kernel inside a synctest bubble.
@@ -333,11 +437,7 @@ func (s *Sim) run() {
 	s.conc = s.plan.Concurrent
 	s.model = NewModel(s)
 	s.model.track = s.conc // concurrent burst: structural tracking only, no verdicts
-	s.addrSets = [][]resolver.Address{
-		{{Addr: "a:1"}},
-		{{Addr: "a:1"}, {Addr: "b:2"}},
-		{{Addr: "c:3"}},
-	}
+	s.initAddrs()
 
 	// C17: the configuration reaches the balancer the way gRPC delivers it:
 	// rendered as JSON, parsed by the registered builder's ParseConfig.
@@ -695,8 +795,9 @@ func (s *Sim) exec(i int, o Op) {
 	env := s.env
 	switch o.K {
 	case OpResolver:
-		addrs := s.addrSets[o.A%len(s.addrSets)]
+		addrs, want := s.resolved(o.A)
 		if o.F&FlagEmpty != 0 {
+			want = "[]"
 			addrs = nil
 			env.Fired["resolver_empty_list"]++
 		}
@@ -709,7 +810,7 @@ func (s *Sim) exec(i int, o Op) {
 			cfg = s.callerCfg
 		}
 		s.resolverSent = true
-		s.spawnCore(i, kind, -1, 0, addrsString(addrs), func() {
+		s.spawnCore(i, kind, -1, 0, want, func() {
 			s.bal.UpdateClientConnState(balancer.ClientConnState{ResolverState: resolver.State{Addresses: addrs}, BalancerConfig: cfg})
 		})
 		s.stepsAfter(o)
@@ -759,7 +860,7 @@ func (s *Sim) exec(i int, o Op) {
 			sc.ShutdownSent = true
 		}
 		s.spawnCore(i, "conn", sc.ID, st, "", func() {
-			s.bal.UpdateSubConnState(sc, balancer.SubConnState{ConnectivityState: st})
+			s.bal.UpdateSubConnState(sc, s.connState(sc.ID, st))
 		})
 		s.stepsAfter(o)
 	case OpPick:
@@ -1014,7 +1115,7 @@ func (s *Sim) startCall(i int, o Op) {
 	c.NoGCP = o.F&FlagNoGCP != 0
 	c.Stream = o.F&FlagStream != 0 && !c.NoGCP
 	c.NilMsg = o.F&FlagNilMsg != 0
-	c.ReqKeys = keyNames(o.Keys)
+	c.ReqKeys = s.keyNames(o.Keys)
 	loc := s.plan.Cfg.Locator % len(locators)
 	c.req = buildMsgFor(o.B, loc, c.ReqKeys)
 	c.reply = emptyMsgFor(o.B)
@@ -1290,7 +1391,7 @@ func (s *Sim) completeCall(i int, o Op) {
 	if o.A >= 0 {
 		c = fl[o.A%len(fl)]
 	}
-	s.finishCall(i, c, o.B, keyNames(o.Keys))
+	s.finishCall(i, c, o.B, s.keyNames(o.Keys))
 }
 
 //go:norace
@@ -1623,7 +1724,7 @@ func (s *Sim) healConnsAndCalls(i int) {
 			}
 			sc := sc
 			s.spawnCore(i, "conn", sc.ID, st, "", func() {
-				s.bal.UpdateSubConnState(sc, balancer.SubConnState{ConnectivityState: st})
+				s.bal.UpdateSubConnState(sc, s.connState(sc.ID, st))
 			})
 			s.k.Quiesce()
 			s.afterOp()
@@ -1666,6 +1767,9 @@ func (s *Sim) healConnsAndCalls(i int) {
 	s.k.Bump()
 	s.k.Quiesce()
 	s.afterOp()
+	if s.conc && !s.degraded && !s.stop {
+		s.model.RRBurstCheck()
+	}
 	for _, c := range s.calls {
 		if s.stop {
 			return
